@@ -163,9 +163,9 @@ func init() {
 			Rule: "2-16 simulated client tasks, each a scripted program of 1-6 operations (Put, PutMany, Has, Get, GetSize, AllKeysChan+drain, Roots, Finalize) on ONE shared blockstore.ReadWrite / storage.StorageCar / deferred writer over 2-5 colliding keys. Engine sched: the run executes in a testing/synctest bubble; every sync.Mutex/RWMutex operation of go-car (types substituted), every simulated disk/stream call and every client yield is a scheduling point where all tasks are parked and a seeded PRNG picks who runs (lock eligibility comes from the simulator's lock model); oracles: no panic, no deadlock, history (stamped with the global event counter) linearizable against the map+typestate model (porcupine), and the finalized file holds each acknowledged block exactly once. " +
 				"Engine race: the same programs with real goroutines, real mutexes and files under the Go race detector (schedule: Go runtime - runtime monitoring, used only for the 'no data races' clause). " +
 				"An evaluation is one scheduled run or one racing execution; non-trivial = at least two operations overlapped; distinct = distinct hash of the (task, yield site) pick sequence (sched) / distinct program shape (race)",
-			Assume: []string{"the RW lock model has no writer preference (a superset of Go's behaviours)", "channel hand-offs between a key-listing producer and its consumer are not scheduling points (the library's channel cannot be intercepted); both sides run until their next simulated yield", "race pass: absence of reports under the runtime's schedules is not absence of races"},
-			Real:   realAll,
-			Stub:   []string{"sched engine: mutexes (sim.Mutex/RWMutex under the seeded scheduler), disk/file system/stream (sim), goroutine scheduling (one task at a time, chosen by the PRNG)", "race engine: nothing stubbed (real sync, real temp files); sim types in pass-through"},
+			Assume:   []string{"the RW lock model has no writer preference (a superset of Go's behaviours)", "channel hand-offs between a key-listing producer and its consumer are not scheduling points (the library's channel cannot be intercepted); both sides run until their next simulated yield", "race pass: absence of reports under the runtime's schedules is not absence of races"},
+			Real:     realAll,
+			Stub:     []string{"sched engine: mutexes (sim.Mutex/RWMutex under the seeded scheduler), disk/file system/stream (sim), goroutine scheduling (one task at a time, chosen by the PRNG)", "race engine: nothing stubbed (real sync, real temp files); sim types in pass-through"},
 			Schedule: "sched: simulator (seeded PRNG, replayable pick list); race: go runtime",
 			Custom:   c08Custom, ReplayFn: c08Replay,
 			ExpectProbes: []string{"sched:ops-overlapped", "sched:task-ineligible-lock-held", "sched:put-inside-key-listing", "sched:finalize-overlapped", "race:programs"},
